@@ -200,6 +200,19 @@ def run(tier):
                 samples.append(text)
         if not m.mix and len(m.elems) == 1:
             do("stochastic", m.text(), mk_sto, gen=(n % step_gen == 0), single=True)
+    # systems of several components: every combination of written specifiers over a small grid (a share of 0 included); whatever the
+    # parser accepts has to round-trip
+    import itertools
+    comps_ = ["CCCO", "CC(C)O", "CC{[$][$]CC[$][$]}|gauss(60, 5)|CO"]
+    specs_ = [".|0%|", ".|25%|", ".|50%|", ".|75%|", ".|100%|", ".|0|", ".|500|", ".|1500|", ""]
+    n_sys = 0
+    for k in (2, 3):
+        for combo in itertools.product(specs_, repeat=k):
+            if any(sp == "" for sp in combo[:-1]):
+                continue        # only the last component can be written without a specifier
+            text = "".join(c + sp for c, sp in zip(comps_, combo))
+            n_sys += 1
+            do("system", text, g.System, gen=False)
     # instance library and seeded archetypes
     lib = I.core_instances() + I.extra_instances() + I.chem_instances(tier) + [I.random_instance(rnd, "small") for _ in range(40 if tier == "quick" else 300)]
     for m in lib:
